@@ -28,9 +28,10 @@ for pid in (ids or sorted(props)):
     with open(os.path.join(wt, "_seed", "PROPERTY.txt"), "w") as f:
         f.write("PROPERTY %s: %s\n\n%s\n\nQuantified over: %s\n\n" % (pid, p["title"], p["statement"], p["quantifier"]["text"]))
         f.write("Code the property is anchored in: %s\n\n" % json.dumps(p.get("anchors"))[:1500])
-        f.write("IDEAS ALREADY TRIED (do not repeat these):\n")
-        for t in tried.get(pid, []):
-            f.write(" - %s\n" % t)
+        if not os.environ.get("NO_TRIED"):
+            f.write("IDEAS ALREADY TRIED (do not repeat these):\n")
+            for t in tried.get(pid, []):
+                f.write(" - %s\n" % t)
     with open("/tmp/wt/prompt_%s%s.txt" % (prefix, pid), "w") as f:
         f.write(tpl.format(WT=wt))
     print(wt)
